@@ -64,6 +64,17 @@ BLOCKS = [
 ]
 
 
+_DIR = b"t"  # the directory under test; b"" = the document root itself
+
+
+def _pre():
+    return b"/" + _DIR + b"/" if _DIR else b"/"
+
+
+def _dirsel():
+    return "/" + _DIR.decode() if _DIR else "/"
+
+
 def render(blocks):
     return b"\n".join(b"\n".join(b[2]) + b"\n" for b in blocks)
 
@@ -97,7 +108,7 @@ def parse_block(lines):
 
 
 def baseline_entries(w):
-    r = w.serve(*rig.request("gopher", "/t"))
+    r = w.serve(*rig.request("gopher", _dirsel()))
     entries = {}
     cur = None
     for t, name, sel, host, port, plus in parsers.gopher_menu_lines(r.out):
@@ -124,7 +135,7 @@ def expected(base, capfiles, linkfiles):
             e["port"] = f["port"]
 
     for fname, blocks in capfiles.items():
-        sel = b"/t/" + fname
+        sel = _pre() + fname
         if sel in ents and blocks:
             f = parse_block(blocks[0][2][1:] if blocks[0][0] == "o" else blocks[0][2])
             if f.get("type") in (b"X", b"-"):
@@ -135,7 +146,7 @@ def expected(base, capfiles, linkfiles):
         for kind, target, lines in linkfiles[fname]:
             f = parse_block(lines)
             if kind == "o":
-                sel = b"/t/" + target.rstrip(b"/")  # "a trailing slash is removed from the path"
+                sel = _pre() + target.rstrip(b"/")  # "a trailing slash is removed from the path"
                 if sel not in ents:
                     continue
                 if f.get("type") in (b"X", b"-"):
@@ -146,7 +157,7 @@ def expected(base, capfiles, linkfiles):
                 path = f["path"]
                 local = not f.get("host_set") and not f.get("port_set")
                 if local and not path.startswith(b"/") and not path.startswith(b"URL:"):
-                    path = posixpath.normpath(b"/t/" + path)
+                    path = posixpath.normpath(_pre() + path)
                 e = {"type": f.get("type", b"0"), "name": f.get("name"), "sel": path, "host": f.get("host"), "port": f.get("port"), "num": f.get("num", 0), "abstract": f.get("abstract", b""), "hidden": False}
                 order_new.append(e)
     allents = [e for e in ents.values() if not e["hidden"]] + order_new
@@ -169,7 +180,7 @@ def canon(e):
 
 
 def listing(w):
-    r = w.serve(*rig.request("gopher", "/t"))
+    r = w.serve(*rig.request("gopher", _dirsel()))
     if r.internal_error:
         return None, r.describe_error()
     if parsers.is_gopher_error(r.out):
@@ -223,16 +234,19 @@ def _known_suffixes(fn: bytes):
     return out
 
 
-def check_case(capfiles, linkfiles, extstrip="nonencoded"):
-    w = rig.World({"t": {k: (dict(v) if isinstance(v, dict) else v) for k, v in BASE.items()}}, handlers="default", cachetime=0, tag="c08",
+def check_case(capfiles, linkfiles, extstrip="nonencoded", where="t"):
+    global _DIR
+    _DIR = where.encode()
+    tree = {k: (dict(v) if isinstance(v, dict) else v) for k, v in BASE.items()}
+    w = rig.World({where: tree} if where else tree, handlers="default", cachetime=0, tag="c08",
                   handlers_DOT_UMN_DOT_UMNDirHandler__extstrip=extstrip)
     try:
         base = baseline_entries(w)
         for fname, blocks in capfiles.items():
             lines = blocks[0][2][1:] if blocks[0][0] == "o" else blocks[0][2]
-            rig.write_file(os.path.join(os.fsencode(w.root), b"t", b".cap", fname), b"\n".join(lines) + b"\n")
+            rig.write_file(os.path.join(os.fsencode(w.root), _DIR, b".cap", fname), b"\n".join(lines) + b"\n")
         for fname, blocks in linkfiles.items():
-            rig.write_file(os.path.join(w.root, "t", fname), render(blocks))
+            rig.write_file(os.path.join(w.root, where, fname), render(blocks))
         got, err = listing(w)
         if got is None:
             return ("listing", err)
@@ -261,13 +275,14 @@ def check_case(capfiles, linkfiles, extstrip="nonencoded"):
                     return ("extstrip", "display name %r is not the file name %r minus ONE known extension of its type (removed %r)" % (e["name"], fn, removed))
     finally:
         w.destroy()
+        _DIR = b"t"
     return None
 
 
 def _shard(shard, seed, tier):
     part = core.Partial()
     for item in shard:
-        mode, spec, extstrip = item
+        mode, spec, extstrip = item[:3]
         if mode == "links":
             capfiles, linkfiles = {}, {".names": [BLOCKS[i] for i in spec]}
         elif mode == "two-files":
@@ -279,21 +294,22 @@ def _shard(shard, seed, tier):
             b = BLOCKS[spec[0]]
             lines = [b[2][k] for k in spec[1]]
             capfiles, linkfiles = {}, {".names": [(b[0], b[1], lines)]}
-        bad = check_case(capfiles, linkfiles, extstrip)
+        where = item[3] if len(item) > 3 else "t"
+        bad = check_case(capfiles, linkfiles, extstrip, where)
         part.evaluations += 1
         part.transitions += 2
-        part.state(mode, spec, extstrip)
-        part.outcome(mode, extstrip, bad[0] if bad else "", spec[0] if spec else -1)
+        part.state(mode, spec, extstrip, where)
+        part.outcome(mode, extstrip, bad[0] if bad else "", spec[0] if spec else -1, where)
         part.sample({"mode": mode, "link_file": render([BLOCKS[i] for i in spec]) if mode == "links" else repr(spec), "extstrip": extstrip}, limit=2)
         if bad:
-            part.violation("%s|%s|%s|%s" % (mode, ",".join(map(str, spec)) if mode != "perm" else "%d:%s" % (spec[0], "".join(map(str, spec[1]))), extstrip, bad[0]), bad[1],
-                           {"mode": mode, "spec": [list(s) if isinstance(s, tuple) else s for s in spec], "extstrip": extstrip})
+            part.violation("%s%s|%s|%s|%s" % ("root:" if not where else "", mode, ",".join(map(str, spec)) if mode != "perm" else "%d:%s" % (spec[0], "".join(map(str, spec[1]))), extstrip, bad[0]), bad[1],
+                           {"mode": mode, "spec": [list(s) if isinstance(s, tuple) else s for s in spec], "extstrip": extstrip, "where": where})
     return part
 
 
 def replay(case):
     spec = tuple(tuple(s) if isinstance(s, list) else s for s in case["spec"])
-    p = _shard([(case["mode"], spec, case["extstrip"])], 0, "quick")
+    p = _shard([(case["mode"], spec, case["extstrip"], case.get("where", "t"))], 0, "quick")
     return (p.violations[0][0], p.violations[0][1]) if p.violations else None
 
 
@@ -364,6 +380,14 @@ def run(ck):
                     items.append(("perm", (i, order), "nonencoded"))
                     nsub += 1
     items.append(("links", (), "nonencoded"))
+    # the same link files in the document root itself (selector "/"): single blocks and the pairs of the new-entry blocks
+    for i in range(n):
+        items.append(("links", (i,), "nonencoded", ""))
+        if BLOCKS[i][0] == "o" and not BLOCKS[i][1].endswith(b"/"):
+            items.append(("cap", (i,), "nonencoded", ""))
+    news = [i for i in range(n) if BLOCKS[i][0] == "n"]
+    for i, j in itertools.permutations(news, 2):
+        items.append(("links", (i, j), "nonencoded", ""))
     if ck.seed:
         import random
 
